@@ -1668,7 +1668,6 @@ def read_index(file, name, index, tindex, stop=b'\377' * 8,
 
         if tid <= ltid:
             logger.warning("%s time-stamp reduction at %s", name, pos)
-        ltid = tid
 
         if pos + (tl + 8) > file_size or status == 'c':
             # Hm, the data were truncated or the checkpoint flag wasn't
@@ -1708,6 +1707,9 @@ def read_index(file, name, index, tindex, stop=b'\377' * 8,
                 if recover:
                     return pos, None, None
                 panic('%s has invalid transaction header at %s', name, pos)
+
+        # The transaction is accepted (not a discarded tail).
+        ltid = tid
 
         if tid >= stop:
             break
